@@ -14,6 +14,8 @@ from tiv.mutate import M
 from tiv.sign import ge1
 
 RULES = {
+    "MEMO": "memo safety (shared, rules/common.py): a memoised function in this property's files (or called from them) is a function of its "
+            "arguments only (no terminal/ambient/receiver state outside the key) and no caller mutates its result in place",
     "R1": "template completeness: every control-sequence constant of _ctlseqs.py, constant-folded, is a concatenation of complete ECMA-48 "
           "sequences (CSI ... final byte; OSC/APC/DCS ... ST) with placeholders only in parameter/payload positions; the declared "
           "introducers/terminators are exactly ESC BEL APC CSI DCS OSC ST KITTY_START ITERM2_START; the bytes versions are generated for all; "
@@ -157,7 +159,7 @@ def run(ck, m):
         ck.expect(len(sums) >= 2, f"{label}: expected >= 2 string-returning paths, found {len(sums)}")
         seen_nl = set()
         for ret, facts, term in sums:
-            cs = emit.cases(term, facts, limit=7)
+            cs = emit.cases(term, facts, limit=9)
             ck.expect(cs is not None, f"{label}: too many free conditions in the output shape of the return at line {m.loc(ret)}")
             for a_ in emit.atoms(term):
                 if emit.is_nl(a_) and a_.src is not None:
@@ -302,6 +304,9 @@ def run(ck, m):
 
     from rules.c03 import rule_chunk_protocol
     rule_chunk_protocol(ck, m, "R5")
+
+    from rules.common import rule_memo_safety
+    rule_memo_safety(ck, m, "MEMO", "C01")
 
 
 MUTANTS = [
